@@ -513,7 +513,6 @@ func main() {
 			}}
 		sub := vrt.Explore(hp.Program("C13/signalling"), res, o.Shard, o.Shards)
 		res.AddSub(sub)
-		sig.Cleanup()
 	}
 	// real web clients (rtpconn.webClient) against statistics and moderation:
 	// the client lock c.mu and the group lock g.mu are taken in both packages
@@ -555,7 +554,6 @@ func main() {
 			sub := vrt.Explore(rp.Program("C13/signalling"), res, o.Shard, o.Shards)
 			res.AddSub(sub)
 		}
-		sig.Cleanup()
 	}
 	for i, p := range programs() {
 		if !core.Want(p.name) {
@@ -566,6 +564,7 @@ func main() {
 		res.AddSub(vrt.Explore(toProgram(p), res, o.Shard, o.Shards))
 	}
 	glife.Cleanup()
+	sig.Cleanup()
 	core.Finish(res, t0)
 }
 
